@@ -985,7 +985,8 @@ class Attribute(utils.EventEmitter, Generic[_T]):
         if (
             (self.permissions & self.READ_REQUIRES_AUTHENTICATION)
             and connection is not None
-            and not connection.authenticated
+            # An authenticated link is one encrypted with an authenticated key
+            and not (connection.authenticated and connection.encryption)
         ):
             raise ATT_Error(
                 error_code=ATT_INSUFFICIENT_AUTHENTICATION_ERROR, att_handle=self.handle
@@ -1040,7 +1041,8 @@ class Attribute(utils.EventEmitter, Generic[_T]):
         if (
             (self.permissions & self.WRITE_REQUIRES_AUTHENTICATION)
             and connection is not None
-            and not connection.authenticated
+            # An authenticated link is one encrypted with an authenticated key
+            and not (connection.authenticated and connection.encryption)
         ):
             raise ATT_Error(
                 error_code=ATT_INSUFFICIENT_AUTHENTICATION_ERROR, att_handle=self.handle
